@@ -387,15 +387,17 @@ fn api_sortdocs_text(text: &str) {
 ///   check_version_compatibility(target) lists nothing  <=>  the serialized text relabelled with the target's schema
 ///   file name loads in strict mode;  the returned mask contains the target exactly then;  set_version(target) succeeds
 ///   exactly then, leaves the content unchanged and the re-serialized file loads strictly.
-fn api_compat(args: &[String]) { api_compat_mode(args, false) }
+fn api_compat(args: &[String]) { api_compat_mode(args, false, false) }
+/// api roundtripgen <max-docs> : C01 round trip on the generated documents
+fn api_roundtripgen(args: &[String]) { api_compat_mode(args, false, true) }
 
 /// api holes <max-docs> : C08 on the same generated documents.  Oracle from the specification tables (not from the loader):
 /// when the element / attribute / value a document was built around is not available in version v (its version mask
 /// lacks v), the document relabelled to v must be rejected by strict loading, lenient loading must warn or fail, and the
 /// two must agree (strict error == first lenient warning).
-fn api_holes(args: &[String]) { api_compat_mode(args, true) }
+fn api_holes(args: &[String]) { api_compat_mode(args, true, false) }
 
-fn api_compat_mode(args: &[String], holes: bool) {
+fn api_compat_mode(args: &[String], holes: bool, roundtrip: bool) {
     use autosar_data::*;
     use autosar_data_specification::{expand_version_mask, CharacterDataSpec, ElementType};
     use std::collections::{HashSet, VecDeque};
@@ -488,6 +490,14 @@ fn api_compat_mode(args: &[String], holes: bool) {
         // only documents that are valid in their own version take part
         if !matches!(AutosarModel::new().load_buffer(text.as_bytes(), "g.arxml", true), Ok((_, w)) if w.is_empty()) { continue; }
         built += 1;
+        if roundtrip {
+            compared += 1;
+            match roundtrip_one(text.as_bytes(), true) {
+                Ok(_) => {}
+                Err(e) => { println!("FAIL {} [{}] :: document {}", e, c.what, hex(text.as_bytes())); nfail += 1; if !survey { return; } else { continue 'docs; } }
+            }
+            continue;
+        }
         if holes {
             for v in &all_versions {
                 if c.avail & (*v as u32) != 0 { continue; }
@@ -580,6 +590,95 @@ fn api_compat1(args: &[String]) {
     else { println!("{{\"outcome\":\"panic\",\"message\":{:?}}}", msg); }
 }
 
+/// C01 on the public API, one document: load (given mode) -> serialize -> load (same mode) -> serialize: the second text is
+/// byte-identical to the first, the reloaded model has the same elements (count, identifiable paths), no warnings on reload.
+fn roundtrip_one(doc: &[u8], strict: bool) -> Result<bool, String> {
+    use autosar_data::*;
+    let m1 = AutosarModel::new();
+    let Ok((f1, _)) = m1.load_buffer(doc, "a.arxml", strict) else { return Ok(false) };
+    let s1 = f1.serialize().map_err(|e| format!("serialize failed: {}", e))?;
+    let m2 = AutosarModel::new();
+    let (f2, w2) = m2.load_buffer(s1.as_bytes(), "b.arxml", strict).map_err(|e| format!("the serialized text of a loaded file does not load again (strict={}): {}", strict, e))?;
+    if strict && !w2.is_empty() { return Err(format!("reloading the serialized text gives warnings: {}", w2[0])); }
+    let s2 = f2.serialize().map_err(|e| format!("second serialize failed: {}", e))?;
+    if s1 != s2 { return Err("serializing the reloaded file gives different text (not byte-identical)".to_string()); }
+    if f1.version() != f2.version() { return Err("the version changed on reload".to_string()); }
+    if m1.elements_dfs().count() != m2.elements_dfs().count() { return Err("the reloaded model has a different number of elements".to_string()); }
+    let p1: Vec<String> = m1.identifiable_elements().map(|(p, _)| p).collect();
+    let p2: Vec<String> = m2.identifiable_elements().map(|(p, _)| p).collect();
+    if p1 != p2 { return Err("the reloaded model has different identifiable paths".to_string()); }
+    for ((_, e1), (_, e2)) in m1.elements_dfs().zip(m2.elements_dfs()) {
+        if e1.element_name() != e2.element_name() { return Err(format!("element order differs after reload: {} vs {}", e1.element_name(), e2.element_name())); }
+        let a1: Vec<String> = e1.attributes().map(|a| format!("{}={}", a.attrname, a.content)).collect();
+        let a2: Vec<String> = e2.attributes().map(|a| format!("{}={}", a.attrname, a.content)).collect();
+        if a1 != a2 { return Err(format!("attributes of {} differ after reload: {:?} vs {:?}", e1.element_name(), a1, a2)); }
+        if e1.character_data() != e2.character_data() { return Err(format!("character data of {} differs after reload: {:?} vs {:?}", e1.element_name(), e1.character_data(), e2.character_data())); }
+        if e1.comment() != e2.comment() { return Err(format!("comment of {} differs after reload", e1.element_name())); }
+    }
+    Ok(true)
+}
+
+/// api roundtrip <corpus-file> : every document, strict and lenient
+fn api_roundtrip(args: &[String]) {
+    let text = std::fs::read_to_string(&args[0]).unwrap();
+    let (mut n, mut loaded) = (0u64, 0u64);
+    for line in text.lines() {
+        let doc = unhex(line.trim_start_matches('!').trim());
+        for strict in [true, false] {
+            n += 1;
+            let d = doc.clone();
+            match panic::catch_unwind(move || roundtrip_one(&d, strict)) {
+                Ok(Ok(l)) => { if l { loaded += 1; } }
+                Ok(Err(e)) => { println!("FAIL {} (first load strict={}) :: document {}", e, strict, hex(&doc)); return; }
+                Err(_) => { println!("FAIL panic: {} :: document {}", super::LAST.lock().unwrap().take().unwrap_or_default(), hex(&doc)); return; }
+            }
+        }
+    }
+    println!("OK {} loaded={}", n, loaded);
+}
+
+/// api strings <maxlen> : every text over a small alphabet of special and plain characters, written into a document with an
+/// escaping done HERE (independent of the library), as element content and as attribute value: the loaded value is the text;
+/// the serialized file reloads to the same value and re-serializes byte-identically.
+fn api_strings(args: &[String]) {
+    use autosar_data::*;
+    let maxlen: usize = args.get(0).and_then(|s| s.parse().ok()).unwrap_or(3);
+    let alphabet: Vec<char> = vec!['&', '<', '>', '"', '\'', 'a', ';', '#', 'x', '1', ' ', 'l', 't', '\u{e4}'];
+    let esc = |s: &str| -> String { s.replace('&', "&amp;").replace('<', "&lt;").replace('>', "&gt;").replace('"', "&quot;").replace('\'', "&apos;") };
+    let hdr = "<?xml version=\"1.0\" encoding=\"utf-8\"?>\n<AUTOSAR xsi:schemaLocation=\"http://autosar.org/schema/r4.0 AUTOSAR_00050.xsd\" xmlns=\"http://autosar.org/schema/r4.0\" xmlns:xsi=\"http://www.w3.org/2001/XMLSchema-instance\"><AR-PACKAGES><AR-PACKAGE><SHORT-NAME>P</SHORT-NAME><ADMIN-DATA><SDGS><SDG GID=\"";
+    let mut n = 0u64;
+    let mut idx = vec![0usize; 0];
+    for len in 1..=maxlen {
+        idx = vec![0; len];
+        loop {
+            let s: String = idx.iter().map(|i| alphabet[*i]).collect();
+            // leading / trailing blanks are insignificant whitespace by the property's own wording: skip those texts
+            if !(s.starts_with(' ') || s.ends_with(' ')) {
+                n += 1;
+                let doc = format!("{}{}\"><SD GID=\"v\">{}</SD></SDG></SDGS></ADMIN-DATA></AR-PACKAGE></AR-PACKAGES></AUTOSAR>", hdr, esc(&s), esc(&s));
+                for strict in [true, false] {
+                    let m = AutosarModel::new();
+                    let (f, w) = match m.load_buffer(doc.as_bytes(), "s.arxml", strict) { Ok(x) => x, Err(e) => { println!("FAIL a well-formed document with the escaped text {:?} does not load (strict={}): {} :: document {}", s, strict, e, hex(doc.as_bytes())); return; } };
+                    if !w.is_empty() { println!("FAIL loading the escaped text {:?} gives a warning: {} :: document {}", s, w[0], hex(doc.as_bytes())); return; }
+                    let sd = m.elements_dfs().map(|(_, e)| e).find(|e| e.element_name() == ElementName::Sd).unwrap();
+                    let sdg = sd.parent().unwrap().unwrap();
+                    let got_c = sd.character_data().and_then(|c| c.string_value());
+                    let got_a = sdg.attribute_value(AttributeName::Gid).and_then(|c| c.string_value());
+                    if got_c.as_deref() != Some(s.as_str()) { println!("FAIL element content {:?} was loaded as {:?} :: document {}", s, got_c, hex(doc.as_bytes())); return; }
+                    if got_a.as_deref() != Some(s.as_str()) { println!("FAIL attribute value {:?} was loaded as {:?} :: document {}", s, got_a, hex(doc.as_bytes())); return; }
+                    let _ = f;
+                }
+                if let Err(e) = roundtrip_one(doc.as_bytes(), true).and_then(|l| if l { Ok(()) } else { Err("does not load".to_string()) }) { println!("FAIL {} :: document {}", e, hex(doc.as_bytes())); return; }
+            }
+            let mut k = len;
+            loop { if k == 0 { break; } k -= 1; idx[k] += 1; if idx[k] < alphabet.len() { break; } idx[k] = 0; if k == 0 { k = usize::MAX; break; } }
+            if k == usize::MAX { break; }
+        }
+    }
+    let _ = idx;
+    println!("OK {}", n);
+}
+
 pub fn command(cmd: &str, args: &[String]) {
     match cmd {
         "api" if args.get(0).map(|s| s.as_str()) == Some("strictlenient") => api_strict_lenient(&args[1..]),
@@ -595,6 +694,15 @@ pub fn command(cmd: &str, args: &[String]) {
                 Err(e) => println!("{{\"outcome\":\"ok\",\"note\":{:?}}}", e.to_string()),
             }
         }
+        "api" if args.get(0).map(|s| s.as_str()) == Some("roundtrip") => api_roundtrip(&args[1..]),
+        "api" if args.get(0).map(|s| s.as_str()) == Some("roundtrip1") => {
+            let d = unhex(&args[1]);
+            let mut bad = None;
+            for strict in [true, false] { if let Err(e) = roundtrip_one(&d, strict) { bad = Some(e); } }
+            match bad { None => println!("{{\"outcome\":\"ok\"}}"), Some(e) => println!("{{\"outcome\":\"panic\",\"message\":{:?}}}", e) }
+        }
+        "api" if args.get(0).map(|s| s.as_str()) == Some("strings") => api_strings(&args[1..]),
+        "api" if args.get(0).map(|s| s.as_str()) == Some("roundtripgen") => api_roundtripgen(&args[1..]),
         "api" if args.get(0).map(|s| s.as_str()) == Some("holes") => api_holes(&args[1..]),
         "api" if args.get(0).map(|s| s.as_str()) == Some("compat") => api_compat(&args[1..]),
         "api" if args.get(0).map(|s| s.as_str()) == Some("sortdocs") => api_sortdocs(&args[1..]),
